@@ -49,6 +49,8 @@ def run(ctx: Ctx):
             bi += 1
             if len(ctx.violations) > 15:
                 break
+    if len(ctx.violations) > 15:
+        return          # the run already fails: skip the random runs (a broken tree makes them slow)
     n = ctx.pick(250, 3000)
     nfault_runs = 0
     for i in range(n):
